@@ -49,11 +49,12 @@ PROPERTY = "C20"
 LEVEL = "exploration"
 RULE = (
     "every U-PROB problem (15 slots) and U-TEMP-lite problem (12 slots, no continuous effects) with <= d "
-    "deviating slots; numeric type sweep (2 kinds x 4 bound combinations x 4 magnitudes x 9 positions); "
+    "deviating slots; numeric type sweep (2 kinds x 4 bound combinations x 5 magnitudes incl. a zero bound x 9 positions); "
     "constants sweep (15 constants x 10 positions); timing sweep (4 timepoint kinds x 5 delays x positions, "
     "4 openness forms of time and duration intervals); all sequential plans <= 2 steps over 13 ground "
     "actions, all time-triggered plans <= 2 steps over a start/duration grid, partial-order plans <= 2 "
-    "nodes; CompilerResults of up_grounder (and of a second compiler run on the grounded problem) for all "
+    "nodes; reader histories (one reader: a problem, then every one-step plan of the same or of a twin problem "
+    "whose equally named objects have other types); CompilerResults of up_grounder (and of a second compiler run on the grounded problem) for all "
     "U-PROB problems with <= 1 deviation; ValidationResults of the sequential validator for all plans <= 2 "
     "steps plus a field sweep; the example corpus (problems and plans) and additive numeric-type mutations "
     "of its hierarchical and scheduling problems. One evaluation = one object pushed through writer, wire "
@@ -249,9 +250,9 @@ def judge_problem(acc, pb, family, label, case, level, base=False):
     return back
 
 
-def judge_plan(acc, plan, pb, family, label, case, level):
+def judge_plan(acc, plan, pb, family, label, case, level, rw=None):
     acc.count("evaluations")
-    R, W = _rw()
+    R, W = rw or _rw()
 
     def viol(sub, what):
         acc.violation("%s|%s:%s" % (sub, family, label), what, dict(case, _level=level))
@@ -309,7 +310,7 @@ def run_grammar(acc, fam, cid, level):
 # ------------------------------------------------------------------ family: types
 KINDS = ["int", "real"]
 BOUNDS = ["none", "lower", "upper", "both"]
-MAGS = ["small", "huge", "negative", "rational"]
+MAGS = ["small", "huge", "negative", "rational", "upto-zero"]
 TYPE_POS = [
     "fluent", "fluent-parameter", "action-parameter", "durative-action-parameter", "task-parameter",
     "method-parameter", "task-network-variable", "sched-variable", "activity-parameter",
@@ -322,6 +323,7 @@ def num_type(tm, kind, bounds, mag):
         "huge": (2**53 + 1, 10**30),
         "negative": (-7, -2),
         "rational": (Fraction(-1, 3), Fraction(10**20 + 1, 3)),
+        "upto-zero": (-3, 0),  # a bound that is exactly zero (falsy)
     }[mag]
     if kind == "int":
         if mag == "rational":
@@ -407,7 +409,7 @@ def type_cases():
                     if k == "int" and mg == "rational":
                         continue
                     # a fluent parameter must have a finite, enumerable domain (Problem.__eq__ grounds all fluents)
-                    if pos == "fluent-parameter" and not (k == "int" and bd == "both" and mg in ("small", "negative")):
+                    if pos == "fluent-parameter" and not (k == "int" and bd == "both" and mg in ("small", "negative", "upto-zero")):
                         continue
                     out.append((k, bd, mg, pos))
     return out
@@ -981,6 +983,52 @@ def run_plans(acc, which, part, nparts):
             judge_plan(acc, plan, pb, "plans", "tt/" + "+".join("%d.%d.%d" % s for s in pl), {"family": "plans", "which": which, "tt": [list(s) for s in pl]}, len(pl))
 
 
+# ------------------------------------------------------------------ family: reader histories
+def _twin_world(env=None, twin=True):
+    """the U-PROB base (twin: with the object types permuted - same names, other types), built in `env`"""
+    ps = dict(uprob.make({}))
+    if twin:
+        ps["objects"] = (("o1", "S"), ("o2", "T"), ("s1", "T"))
+        ps["init"] = ()
+        ps["goals"] = ()
+    pb, ctx = gp.build_problem(ps, env)
+    env = pb.environment
+    em = env.expression_manager
+    objs = {o.name: em.ObjectExp(o) for o in pb.all_objects}
+    gas = []
+    for act in pb.actions:
+        doms = [[objs[o.name] for o in pb.objects(p.type)] for p in act.parameters]
+        for args in product(*doms):
+            gas.append(up.plans.ActionInstance(act, tuple(args)))
+    return pb, env, gas
+
+
+def run_reader_history(acc, only=None):
+    """ONE reader / writer pair: a problem is converted and read first, then every one-step plan of
+    a (possibly different) problem that shares object names with it is written and read back."""
+    from mc.gen.spec import fresh_env
+
+    env = fresh_env()  # both problems live in one (the global) environment
+    worlds = {"A": _twin_world(env, twin=False), "B": _twin_world(env)}
+    for first in ("A", "B"):
+        for second in ("A", "B"):
+            if only and [first, second] != list(only):
+                continue
+            R, W = _rw()
+            pb1 = worlds[first][0]
+            try:
+                back = R.convert(wire(W.convert(pb1)), pb1.environment)
+            except Exception as e:
+                acc.violation("reader-raises:%s|history:%s" % (type(e).__name__, first), "reading problem %s raised %s: %s" % (first, type(e).__name__, str(e)[:200]),
+                              {"family": "reader-history", "order": [first, second], "_level": 1})
+                continue
+            pb2, env2, gas2 = worlds[second]
+            for i, ga in enumerate(gas2):
+                plan = up.plans.SequentialPlan([up.plans.ActionInstance(ga.action, ga.actual_parameters)], env2)
+                judge_plan(acc, plan, pb2, "reader-history", "problem-%s-then-plan-of-%s" % (first, second),
+                           {"family": "reader-history", "order": [first, second]}, 2, rw=(R, W))
+
+
 # ------------------------------------------------------------------ family: results
 def run_compiler_results(acc, cid, level):
     from unified_planning.engines.compilers import Grounder, ConditionalEffectsRemover, DisjunctiveConditionsRemover, NegativeConditionsRemover
@@ -1241,6 +1289,7 @@ def shards(tier, seed):
         {"level": 0, "family": "validation-results"},
         {"level": 0, "family": "corpus"},
         {"level": 0, "family": "structs"},
+        {"level": 0, "family": "reader-history"},
     ]
     for w_, k in (("sequential", 2), ("partial-order", 1), ("time-triggered", 6 if tier == "quick" else 6)):
         for i in range(k):
@@ -1283,6 +1332,8 @@ def run_shard(shard, tier, seed):
         run_corpus(acc)
     elif fam == "structs":
         run_structs(acc)
+    elif fam == "reader-history":
+        run_reader_history(acc)
     elif fam == "compiler-results":
         for cid in shard["cids"]:
             run_compiler_results(acc, tuple(tuple(x) for x in cid), len(cid))
@@ -1317,6 +1368,8 @@ def replay(case):
         run_corpus(acc, only=case["name"])
     elif fam == "structs":
         run_structs(acc)
+    elif fam == "reader-history":
+        run_reader_history(acc, only=case.get("order"))
     elif fam == "corpus-mutation":
         examples()
         run_mutation(acc, case["name"], *case["mut"])
